@@ -19,7 +19,7 @@ func init() {
 		Assumptions: []string{"reference bytes from ref.EncTop; buffers are owned by the harness so aliasing of the result with the buffer is expected when capacity suffices"},
 		Work:        c06Work,
 		Post: func(a *mc.Agg) []string {
-			return needDims(a, "buf:nil", "buf:prefix-exact", "buf:prefix-spare", "buf:prev", "buf:prev[:0]", "conv:value", "conv:pointer", "conv:reused-variable", "shape:direct-iface", "encodes-to-nothing")
+			return needDims(a, "buf:nil", "buf:prefix-exact", "buf:prefix-spare", "buf:prev", "buf:prev[:0]", "conv:value", "conv:pointer", "conv:reused-variable", "shape:direct-iface", "encodes-to-nothing", "capacity-sweep")
 		},
 	})
 }
@@ -145,6 +145,100 @@ func c06Work(c *mc.Ctx) {
 				rec2()
 			} else {
 				rec()
+			}
+			c.Outcome("subtree-done")
+		}
+	}
+	c06CapSweep(c, &unit)
+}
+
+// c06CapSweep: the capacity dimension. For every shape and length of the size sweep (DESIGN §6)
+// the value is marshalled into a destination with a 0- or 3-byte prefix and EVERY spare capacity
+// from 0 to two more than the encoding needs (encodings above 2 KiB: the 6 smallest capacities,
+// the 10 around the exact fit and every power of two between); the result must be the prefix
+// followed by exactly the reference encoding whatever the capacity.
+func c06CapSweep(c *mc.Ctx, unit *int) {
+	for _, it := range ref.SizeSweep(c.Tier) {
+		for _, cfg := range []ref.Cfg{{}, {ProtoTime: true, ProtoArrays: true}} {
+			*unit++
+			if !c.Owns(*unit) {
+				continue
+			}
+			if c.Expired() {
+				c.Note("capacity sweep stopped at " + it.T.String())
+				return
+			}
+			if !c.Begin(fmt.Sprintf(`{"set":"capacity-sweep","cfg":%q,"type":%q,"lengths":%d}`, cfg, it.T, len(it.Vals))) {
+				continue
+			}
+			c.AddEvals(-1)
+			c.Dim("capacity-sweep")
+			pre := fmt.Sprintf("capsweep|%s|%s|", cfg, it.T)
+			p := NewPlenc(cfg)
+			for _, v := range it.Vals {
+				if c.Expired() {
+					break
+				}
+				c.Heartbeat()
+				tree := ref.EncTop(cfg, it.T, v)
+				E := tree.Len()
+				rv := ref.ToReflect(it.T, v)
+				arg := rv.Addr().Interface()
+				var spares []int
+				if E <= 2048 {
+					for sp := 0; sp <= E+2; sp++ {
+						spares = append(spares, sp)
+					}
+				} else {
+					spares = []int{0, 1, 2, 3, 4, 5}
+					for q := 8; q < E-7; q *= 2 {
+						spares = append(spares, q)
+					}
+					for sp := E - 7; sp <= E+2; sp++ {
+						spares = append(spares, sp)
+					}
+				}
+				bad := false
+				for _, plen := range []int{0, 3} {
+					for _, sp := range spares {
+						if bad {
+							break
+						}
+						c.AddEvals(1)
+						c.Count("states", 1)
+						c.AddNonTrivial(1)
+						panicked := c.Guard(pre, func() {
+							buf := make([]byte, plen, plen+sp)
+							for k := range buf {
+								buf[k] = 0xc0 + byte(k)
+							}
+							full := buf[:cap(buf)]
+							for k := plen; k < len(full); k++ {
+								full[k] = 0x5a
+							}
+							out, err := p.Marshal(buf, arg)
+							c.Ops(1)
+							where := fmt.Sprintf("encoding of %d bytes into a destination of length %d with %d spare", E, plen, sp)
+							if err != nil {
+								c.Violation(pre+"marshal-error", where+": "+err.Error())
+								bad = true
+								return
+							}
+							if len(out) < plen || !bytes.Equal(out[:plen], []byte{0xc0, 0xc1, 0xc2}[:plen]) {
+								c.Violation(pre+"prefix-not-preserved", where)
+								bad = true
+								return
+							}
+							if !tree.MatchExact(out[plen:]) {
+								c.Violation(pre+"appended-bytes-differ", fmt.Sprintf("%s: appended %d bytes %s", where, len(out)-plen, trunc(hx(out[plen:]))))
+								bad = true
+								return
+							}
+							c.Outcome("ok")
+						})
+						bad = bad || panicked
+					}
+				}
 			}
 			c.Outcome("subtree-done")
 		}
